@@ -576,6 +576,44 @@ func c13Gen(c *wk.Ctx, run, ci int) (*gen.Case, int) {
 			t.Body = append(t.Body, &gen.Node{K: "print", E: fmt.Sprintf("UNDEFINED_%c + app.UNDEF.G%d", 'A'+byte(r.Intn(5)), r.Intn(4))})
 		}
 	}
+	if ci%4 == 1 && r.Intn(2) == 0 {
+		// two or three declared but unused params, or undeclared params passed to a call: the compile
+		// error lists several names
+		f := gc.Files[r.Intn(len(gc.Files))]
+		t := f.Templates[r.Intn(len(f.Templates))]
+		if r.Intn(2) == 0 {
+			for k, n := 0, 2+r.Intn(2); k < n; k++ {
+				t.Params = append(t.Params, gen.Param{Name: fmt.Sprintf("unused%c", 'p'+byte(k))})
+			}
+			t.NoDoc = false
+		} else {
+			var calls []*gen.Node
+			var walk func(ns []*gen.Node)
+			walk = func(ns []*gen.Node) {
+				for _, n := range ns {
+					if n.K == "call" {
+						calls = append(calls, n)
+					}
+					walk(n.Body)
+					walk(n.Else)
+					for _, cd := range n.Conds {
+						walk(cd.Body)
+					}
+				}
+			}
+			for _, ff := range gc.Files {
+				for _, tt := range ff.Templates {
+					walk(tt.Body)
+				}
+			}
+			if len(calls) > 0 {
+				cl := calls[r.Intn(len(calls))]
+				for k, n := 0, 2+r.Intn(2); k < n; k++ {
+					cl.Args = append(cl.Args, &gen.Arg{Key: fmt.Sprintf("extra%c", 'x'+byte(k)), E: "1"})
+				}
+			}
+		}
+	}
 	return gc, r.Intn(3)
 }
 
